@@ -248,6 +248,7 @@ func (e *Exec) sprintf(format string, args []Value, argTypes []types.Type, lossy
 		}
 		i++
 		if i >= len(format) {
+			out = append(out, e.strConst("%!(NOVERB)").B...)
 			break
 		}
 		if format[i] == '%' {
